@@ -58,6 +58,36 @@ def corpus(v):
             calls.append(("parse_message std L%d fg%d" % (L, fg), lambda L=L, fg=fg: parse_message(text, validation_level=L, find_groups=fg).to_er7()))
         calls.append(("parse_message custom-ec L%d" % L, lambda L=L: parse_message(text2, validation_level=L).to_er7()))
         calls.append(("parse_message+validate L%d" % L, lambda L=L: vrep(parse_message(text, validation_level=L))))
+        # a message type no structure is known for, written with its own delimiters
+        text3 = text2.replace("ADT@A01@ADT_A01", "XYZ@Q99").replace("ADT@A01", "XYZ@Q99")
+        calls.append(("parse_message unknown-type custom-ec L%d" % L, lambda L=L, text3=text3: parse_message(text3, validation_level=L).to_er7()))
+
+        # positional names (<field>_1) on fields of a base datatype: which datatypes are base depends on the version of the TREE
+        def positional(L=L):
+            from .. import tables as T
+            out = []
+            vals = {"SI": "1", "NM": "1", "DT": "20200101", "TM": "1201", "DTM": "20200101", "TS": "20200101"}
+            for segname in ("PID", "PV1", "ORC", "OBR", "EVN", "MSH"):
+                rows = [r for r in (T.seg_rows(v, segname) or []) if r["kind"] == "base" and r["max"] != 0][:6]
+                sg = Segment(segname, version=v, validation_level=L)
+                for r in rows:
+                    if r["name"] in ("MSH_1", "MSH_2"):
+                        continue
+                    nm = r["name"].lower() + "_1"
+                    try:
+                        setattr(sg, nm, vals.get(r["dt"], "A"))
+                        out.append("%s=%s" % (nm, getattr(sg, nm).to_er7()))
+                    except Exception as ex:
+                        out.append("%s!%s" % (nm, type(ex).__name__))
+                    try:        # ... and the same positional name asked of the field itself
+                        fld = Field(r["name"], version=v, validation_level=L)
+                        setattr(fld, nm, vals.get(r["dt"], "A"))
+                        out.append("F.%s=%s/%s" % (nm, getattr(fld, nm).to_er7(), getattr(getattr(sg, r["name"].lower()), nm).to_er7()))
+                    except Exception as ex:
+                        out.append("F.%s!%s" % (nm, type(ex).__name__))
+                out.append(sg.to_er7(full(EC_STD)))
+            return " ".join(out)
+        calls.append(("positional names on base-datatype fields L%d" % L, positional))
         calls.append(("parse_message names L%d" % L, lambda L=L: ",".join(c.name for c in parse_message(text, validation_level=L).children)))
         for ecn, ec in (("std", EC_STD), ("custom", EC_CUSTOM)):
             e = full(ec)
@@ -286,8 +316,16 @@ def run(ctx):
     items = []
     n = 320 if quick else 3000
     for i, h in enumerate(hists[:n]):
-        vmap = {2: vs[i % len(vs)], 3: vs[(i * 5 + 8) % len(vs)]}
-        items.append((h, vmap, vs[(i * 7 + 3) % len(vs)]))
+        vmap = {2: rnd.choice(vs), 3: rnd.choice(vs)}
+        items.append((h, vmap, rnd.choice(vs)))
+    # every ordered pair (version of the call, default version in force): what is a base datatype, which structures
+    # exist, ... differs between versions, so a leak of the default shows only for some pairs
+    pairs = [(cv, dv) for cv in vs for dv in vs if cv != dv]
+    if quick:
+        pairs = rnd.sample(pairs, 66)
+    for cv, dv in pairs:
+        for half in (0, 1):
+            items.append(([["SetVersion", 2], ["Call", half]], {2: dv, 3: dv}, cv))
     events = []
     for part in pmap(_chunk, [items[k::16] for k in range(16)]):
         for e in part:
